@@ -158,6 +158,10 @@ def build_corpus(ctx, exe):
             add(fmt, name, data)
             plain[name] = s
             ctx.count("generated-valid:" + fmt.split(":")[0])
+    # valid files with >= 8 KiB of Stream Padding
+    for name, data, unc in L.padded_files():
+        add("xz", name, data)
+        plain[name] = unc
     # pieces of valid .xz files: Blocks and Index fields
     for name, data in list(corpus.get("xz", [])):
         parts_ = L.xz_parts(data)
@@ -231,6 +235,7 @@ def op_line(rng, ep, data, fmt=None, dual=True):
     elif ep in ("block", "bbuf", "bhdr"):
         p[0] = int(fmt[6:]) if (fmt and fmt.startswith("block:") and rng.random() < 0.8) else rng.randrange(16)
         p[1] = rng.randrange(2)
+        p[3] = rng.randrange(2)            # lzma_block.version 0 / 1
         if ep == "bbuf":
             p[2] = rng.choice((0, 0, 0, 1, 2, 14, 101, 4097))
     elif ep in ("index", "ibuf"):
@@ -279,9 +284,10 @@ def benign_ops(ctx, corpus, plain):
             elif fmt == "micro" and name in plain:
                 out.append((ln("micro", (0, len(plain[name]), 1, 4096)), 1))
             elif fmt.startswith("block:") and name in plain:
-                out.append((ln("block", (int(fmt[6:]), 0, 0, 0)), 1))
-                if fits:
-                    out.append((ln("bbuf", (int(fmt[6:]), 0, 0, 0)), 0))
+                for ver in (0, 1):
+                    out.append((ln("block", (int(fmt[6:]), 0, 0, ver)), 1))
+                    if fits:
+                        out.append((ln("bbuf", (int(fmt[6:]), 0, 0, ver)), 0))
             elif fmt == "index" and name in plain:
                 out.append((ln("index", (0, U64, 0, 0)), 1))
                 out.append((ln("ibuf", (0, U64, 0, 0)), 0))
@@ -308,7 +314,7 @@ def gen_ops(ctx, corpus, target):
     def emit(ep, data, fmt, kind):
         if len(data) > 70000:
             data = data[:70000]
-        lines.append(op_line(rng, ep, data, fmt, dual=(rng.random() < (0.5 if quick else 0.35))))
+        lines.append(op_line(rng, ep, data, fmt, dual=(rng.random() < (0.7 if quick else 0.5))))
         ctx.count("ep:" + ep)
         ctx.count("input:" + kind)
 
@@ -320,6 +326,24 @@ def gen_ops(ctx, corpus, target):
             for ep in sorted(set(eps)):
                 for _ in range(reps):
                     emit(ep, data, fmt, "intact")
+    # 1b. Block entry points: lzma_block.version 0 and 1 x ignore_check x the Block's own / None / reserved / other Check IDs
+    for fmt in fmts:
+        if not fmt.startswith("block:"):
+            continue
+        own = int(fmt[6:])
+        items = corpus[fmt]
+        if len(items) > 12:
+            items = rng.sample(items, 12)
+        for name, data in items:
+            if len(data) > 20000:
+                continue
+            for ver in (0, 1):
+                for chk in sorted({own, 0, 1, rng.choice((2, 3, 5, 6, 7, 8, 9, 11, 12, 13, 14, 15))}):
+                    for ep in ("block", "bbuf"):
+                        seed = rng.getrandbits(48)
+                        lines.append("run2 %s %d %d %d 0 %d %s" % (ep, seed, chk, rng.randrange(2), ver, vlib.hexs(data)))
+                        ctx.count("ep:" + ep)
+                        ctx.count("input:block-matrix")
     # 2. text inputs of lzma_str_to_filters
     for s in L.filter_strings(rng, quick):
         emit("str2f", s, None, "filter-string")
@@ -402,7 +426,7 @@ def judge(ctx, results, stage):
             continue
         t = ln.split()
         ep = t[1] if len(t) > 1 else "?"
-        n_exec += 3 if t[0] == "run2" else 1     # run2 = fresh handle + priming run(s) + the same on the reused handle
+        n_exec += 4 if t[0] == "run2" else 1     # run2 = fresh (junk A) + fresh (junk B) + priming run(s) + reused handle
         replay = {"op": ln, "entry_point": ep, "slicing_seed": t[2] if len(t) > 2 else None, "params": t[3:7],
                   "input_hex": t[7] if len(t) > 7 else None,
                   "how_to_replay": "./check C04 --replay <this file>   (or: echo '<op>' | .cache/harness-asan/c04)"}
@@ -501,9 +525,10 @@ def run(ctx):
                        "all filter chains), Blocks/Index fields cut out of them, hand-built CRC-correct containers with extreme fields, "
                        "structure-aware mutations (bit flips, truncations, field tweaks, splices, insertions; header CRCs recomputed for "
                        "half of them), raw noise with format magics, filter strings. Non-trivial = the entry point was actually called; "
-                       "distinct by full op line; run2 ops execute on a fresh handle and again on a REUSED handle (a lzma_stream that first ran "
+                       "distinct by full op line; run2 ops execute on a fresh handle with junk fill 0xA5, on a fresh handle with junk fill 0x00 "
+                       "(fresh heap memory and output buffers; nothing observable may differ), and on a REUSED handle (a lzma_stream that first ran "
                        "1-2 seeded coders on the same bytes, left in success / error / abandoned mid-stream, re-initialised without lzma_end), "
-                       "with different junk in fresh memory; the two results must be identical (3+ executions).")
+                       "with different junk in fresh memory; all results must be identical (4+ executions).")
     ctx.assumptions += [
         "proof (partial): memory safety / UB / uninitialised reads / leaks / deadlock of the compiled C are observed (ASan+UBSan+assert build, "
         "exact-size buffers, counting allocator, watchdog, junk-fill determinism check, valgrind sample in the thorough tier) on the generated inputs only",
@@ -538,7 +563,7 @@ def run(ctx):
     # K: observation engine
     t0 = time.time()
     corpus, plain = build_corpus(ctx, exe)
-    target = int(os.environ.get("C04_TARGET", 50000 if quick else 300000))   # (C04_TARGET: development knob)
+    target = int(os.environ.get("C04_TARGET", 40000 if quick else 250000))   # (C04_TARGET: development knob)
     lines = gen_ops(ctx, corpus, target)
     ctx.log("corpus %d files, %d op lines (%.1fs)" % (sum(len(v) for v in corpus.values()), len(lines), time.time() - t0))
     parts = vlib.chunks(lines, vlib.NCPU * 4)
@@ -577,8 +602,10 @@ def run(ctx):
     if not quick:
         vexe = build_harness(ctx, "dbg")
         if vexe is not None:
-            sample = [(l if i % 3 == 0 else l.replace("run2 ", "run ", 1))
-                      for i, l in enumerate(ctx.rng.sample(lines, min(len(lines), 8000))) if len(l) < 40000]
+            # all Block-entry-point ops on intact inputs' matrix first (version x Check ID), then a random sample
+            blk_ops = [l for l in lines if l.split(" ", 2)[1] in ("block", "bbuf") and len(l) < 6000][:2500]
+            sample = blk_ops + [(l if i % 3 == 0 else l.replace("run2 ", "run ", 1))
+                                for i, l in enumerate(ctx.rng.sample(lines, min(len(lines), 8000))) if len(l) < 40000]
             vparts = vlib.chunks(sample, vlib.NCPU)
             pre = ["valgrind", "-q", "--error-exitcode=98", "--exit-on-first-error=yes", "--leak-check=full", "--errors-for-leak-kinds=definite",
                    "--track-origins=no", "--max-stackframe=4000000"]
